@@ -46,18 +46,28 @@ def weight (o : Obj) : Nat := match o with | .tree _ es => es.length | _ => 1
 
 theorem fuelOf_eq (r : Repo) : fuelOf r = (r.map weight).sum + r.length + 1 := rfl
 
-theorem sum_range_getD (r : Repo) : ((List.range r.length).map (fun i => (r[i]?.map weight).getD 0)).sum = (r.map weight).sum := by
-  induction r using List.reverseRecOn with
-  | nil => rfl
-  | append_singleton xs x ih =>
-    rw [List.length_append, List.length_singleton, List.range_succ, List.map_append, List.sum_append, List.map_append, List.sum_append]
-    have h1 : ((List.range xs.length).map (fun i => ((xs ++ [x])[i]?.map weight).getD 0)) =
-              ((List.range xs.length).map (fun i => (xs[i]?.map weight).getD 0)) := by
+theorem sum_range_getD_aux (w : Obj → Nat) : ∀ (r pre : List Obj),
+    ((List.range r.length).map (fun i => (((pre ++ r)[pre.length + i]?).map w).getD 0)).sum = (r.map w).sum := by
+  intro r
+  induction r with
+  | nil => intro pre; rfl
+  | cons x xs ih =>
+    intro pre
+    rw [List.length_cons, List.range_succ_eq_map, List.map_cons, List.sum_cons, List.map_cons, List.sum_cons, List.map_map]
+    have h0 : ((pre ++ x :: xs)[pre.length + 0]?.map w).getD 0 = w x := by simp
+    rw [h0]
+    have := ih (pre ++ [x])
+    have e : ((List.range xs.length).map ((fun i => (((pre ++ x :: xs)[pre.length + i]?).map w).getD 0) ∘ Nat.succ)) =
+             ((List.range xs.length).map (fun i => ((((pre ++ [x]) ++ xs)[(pre ++ [x]).length + i]?).map w).getD 0)) := by
       apply List.map_congr_left
-      intro i hi
-      rw [List.getElem?_append_left (List.mem_range.mp hi)]
-    rw [h1, ih]
-    simp
+      intro i _
+      simp only [Function.comp, List.length_append, List.length_singleton, List.append_assoc, List.singleton_append]
+      congr 3; omega
+    rw [e, this]
+
+theorem sum_range_getD (r : Repo) : ((List.range r.length).map (fun i => (r[i]?.map weight).getD 0)).sum = (r.map weight).sum := by
+  have := sum_range_getD_aux weight r []
+  simpa using this
 
 theorem treeKids_length_le (r : Repo) (t : Nat) : (treeKids r t).length ≤ (r[t]?.map weight).getD 0 := by
   unfold treeKids Repo.entries Repo.obj
@@ -98,10 +108,16 @@ theorem K_tags_le_fuel (r : Repo) (ds : List Nat) (hnd : ds.Nodup) (hlt : ∀ t 
       simp only [List.map_cons, List.sum_cons]
       have : ((PT r).kids x).length ≤ 1 := by
         show (tagKids r x).length ≤ 1
-        rcases tagKids_cases r x with ⟨o, _, hk⟩ | ⟨_, hk⟩ <;> rw [hk] <;> simp
+        rcases tagKids_cases r x with ⟨o, _, hk⟩ | ⟨_, hk⟩
+        · rw [hk]; exact Nat.le_refl 1
+        · rw [hk]; exact Nat.zero_le 1
       omega
   have h2 := sum_map_le_range (fun _ => 1) r.length ds hnd hlt
-  have h3 : ((List.range r.length).map fun _ => 1).sum = r.length := by simp
+  have h3 : ∀ n, ((List.range n).map fun _ => 1).sum = n := by
+    intro n; induction n with
+    | zero => rfl
+    | succ n ih => rw [List.range_succ, List.map_append, List.sum_append, ih]; rfl
+  have h3 := h3 r.length
   rw [fuelOf_eq]; omega
 
 /-- subtrees reachable through tree entries -/
